@@ -105,9 +105,10 @@ def run(prop, tier, seed, bins, plan, t0):
         for s in range(nshard):
             cmd = [bins['q'], k, '--seed', str(sd(k, 'native', s)), '--execs', '1000000', '--budget-s', str(budget)] + (['--thorough'] if thorough else [])
             jobs.append({'lane': 'native', 'kind': k, 'cmd': cmd, 'env': ENV_BASE, 'envdesc': '', 'timeout': budget + 120})
-        if k in ('spmc', 'spmcq'):
-            # address-reuse allocator (native only, see q/src/main.rs mod reuse): the ABA windows of the packed head word
-            for s in range(4 if thorough else 2):
+        if True:
+            # address-reuse allocator (native only, see q/src/main.rs mod reuse): ABA windows of packed pointers (spmc head,
+            # mpsc tail), recycled list nodes and queue blocks
+            for s in range((4 if thorough else 2) if k in ('spmc', 'spmcq') else (2 if thorough else 1)):
                 cmd = [bins['q'], k, '--seed', str(sd(k, 'native-reuse', s)), '--execs', '1000000', '--budget-s', str(budget), '--reuse-alloc'] + (['--thorough'] if thorough else [])
                 jobs.append({'lane': 'native-reuse', 'kind': k, 'cmd': cmd, 'env': ENV_BASE, 'envdesc': '--reuse-alloc', 'timeout': budget + 120})
         for s in range(2 if thorough else 1):
